@@ -79,6 +79,15 @@ class Atoms(object):
         return '?' + s.encode('utf-8').hex()
 
 
+def unchars(cs):
+    """inverse of chars(): character sequence -> string (None for the None marker)"""
+    if cs == ['~~'] or cs == '~':
+        return None
+    if isinstance(cs, str):
+        return cs
+    return ''.join(chr(int(c[1:], 16)) if len(c) == 5 and c[0] == 'U' else c for c in cs)
+
+
 def chars(s):
     """character sequence of an (ASCII) label, for character-level specs"""
     if s is None:
@@ -93,7 +102,7 @@ def dominates(a, b):
         (b['tok'] or ya != yb or a['d'] < b['d'])
 
 
-def build(T, mods, atoms, rnd=None, data_hook=None):
+def build(T, mods, atoms, rnd=None, data_hook=None, all_chars=False):
     """Build the real tree for abstract tree T directly through the tree API
     (Tree(data), children.append, parent = ...). Children lists are stored in a
     shuffled order when rnd is given. Returns the root Tree."""
@@ -103,6 +112,11 @@ def build(T, mods, atoms, rnd=None, data_hook=None):
     for x in nodes:
         a = x['a']
         data = trees.make_node_data()
+        if all_chars:
+            a = dict(a)
+            for fld in ('lab', 'edge', 'lemma', 'morph', 'word'):
+                a[fld] = unchars(a[fld])
+            atoms = IDENT
         data['label'] = atoms.conc(a['lab'], 'label')
         data['edge'] = atoms.conc(a['edge'], 'label')
         data['lemma'] = atoms.conc(a['lemma'], 'word')
@@ -135,14 +149,26 @@ def build(T, mods, atoms, rnd=None, data_hook=None):
     return root
 
 
+class _Ident(object):
+    def conc(self, a, kind=None):
+        return a
+
+    def abst(self, s):
+        return s
+
+
+IDENT = _Ident()
+
+
 class Dumper(object):
     """Dumps raw pointer graphs with indices that are stable over one case."""
 
-    def __init__(self, atoms, lab_chars=False):
+    def __init__(self, atoms, lab_chars=False, all_chars=False):
         self.atoms = atoms
         self.index = {}
         self.objs = []
-        self.lab_chars = lab_chars
+        self.lab_chars = lab_chars or all_chars
+        self.all_chars = all_chars
 
     def idx(self, o):
         k = id(o)
@@ -165,7 +191,7 @@ class Dumper(object):
         """Raw graph reachable from `ret` (and, not live, from the nodes in `also`)."""
         if ret is None or not hasattr(ret, 'children'):
             return {'ret': 0, 'root': 0, 'sid': -1, 'nodes': self._records(set()),
-                    'none': 'T'}
+                    'none': 'T', 'cm': 'T' if self.all_chars else 'F'}
         # top above ret (bounded, cycle safe)
         top, seen = ret, set()
         while getattr(top, 'parent', None) is not None and id(top) not in seen:
@@ -201,7 +227,7 @@ class Dumper(object):
         if not isinstance(sid, int) or isinstance(sid, bool):
             sid = -2
         return {'ret': self.idx(ret), 'root': self.idx(top), 'sid': sid,
-                'nodes': self._records(live), 'none': 'F'}
+                'nodes': self._records(live), 'none': 'F', 'cm': 'T' if self.all_chars else 'F'}
 
     def _records(self, live):
         recs = []
@@ -226,6 +252,10 @@ class Dumper(object):
                    'hb': self._flag(d, 'head_block'), 'bn': bn}
             if self.lab_chars:
                 rec['lab'] = chars(d.get('label'))
+            if self.all_chars:
+                for k_, f_ in (('word', 'word'), ('lemma', 'lemma'), ('morph', 'morph'), ('edge', 'edge')):
+                    v_ = d.get(f_)
+                    rec[k_] = chars(v_) if (v_ is None or isinstance(v_, str)) else ['?' + type(v_).__name__]
             recs.append(rec)
         # indices may have grown while building records (parents registered late)
         if len(recs) < len(self.objs):
